@@ -21,10 +21,11 @@ ASSUMPTIONS = [
 TICKS = [1.0, 2.0, 0.5, 0.25, 0.125, 10.0, 3.0, 0.1, 0.01, 0.05, 1e-5, 7.0, 0.3, 1024.0, 2.0 ** -10, 0.2, 100.0]
 REQUIRED = {
     "quick": {"acceptances": 50000, "class/off_grid_buy": 5000, "class/off_grid_sell": 5000, "class/on_grid": 5000,
-              "class/near_grid_ulp": 3000, "class/power_of_two_tick_exact": 5000, "class/runner_offgrid": 50},
+              "class/near_grid_ulp": 3000, "class/power_of_two_tick_exact": 5000, "class/runner_offgrid": 50,
+              "class/non_builtin_bool_side_flag": 2000},
     "thorough": {"acceptances": 1000000, "class/off_grid_buy": 100000, "class/off_grid_sell": 100000,
                  "class/on_grid": 100000, "class/near_grid_ulp": 50000, "class/power_of_two_tick_exact": 100000,
-                 "class/runner_offgrid": 1000},
+                 "class/runner_offgrid": 1000, "class/non_builtin_bool_side_flag": 40000},
 }
 BATCH = 250
 
@@ -166,8 +167,15 @@ def run_case(case, res):
     m._update_time(next_fundamental_price=100 * tick)
     m._is_running = False
     seen = set()
-    for p, is_buy in case["prices"]:
-        o = Order(agent_id=0, market_id=0, is_buy=is_buy, kind=LIMIT_ORDER, volume=1, price=p, ttl=1)
+    import numpy as np
+
+    for j, (p, is_buy) in enumerate(case["prices"]):
+        flag = is_buy
+        if j % 9 == 4:
+            # a side flag that is truthy/falsy without being the bool singleton (e.g. from a numpy comparison)
+            flag = (np.bool_(is_buy), int(is_buy))[(j // 9) % 2]
+            res.count("class/non_builtin_bool_side_flag")
+        o = Order(agent_id=0, market_id=0, is_buy=flag, kind=LIMIT_ORDER, volume=1, price=p, ttl=1)
         try:
             log = m._add_order(o)
         except Exception as e:  # noqa
